@@ -68,6 +68,18 @@ func New(ns string, input string) (*xmpp.Session, *RW, error) {
 	return s, rw, err
 }
 
+// NewReceived is like New for the receiving side of a stream: the session
+// was initiated by the peer (Origin) towards us (Location).
+func NewReceived(ns string, input string) (*xmpp.Session, *RW, error) {
+	rw := &RW{In: bytes.NewReader([]byte(Header(ns) + input))}
+	st := xmpp.Received
+	if ns == stanza.NSServer {
+		st |= xmpp.S2S
+	}
+	s, err := xmpp.NewSession(context.Background(), Location, Origin, rw, st, ReadyNegotiator(ns, 0))
+	return s, rw, err
+}
+
 // NewUnaddressed is like New for a received session that knows no address at
 // all (the peer's stream header carried neither to nor from).
 func NewUnaddressed(ns string, input string) (*xmpp.Session, *RW, error) {
